@@ -83,9 +83,6 @@ pub mod env {
     /*@item radix-engine/src/blueprints/consensus_manager/consensus_manager.rs :: struct ValidatorRewardsSubstate
     @derive
     @*/
-    /*@item radix-engine/src/blueprints/consensus_manager/consensus_manager.rs :: struct ActiveValidatorSet
-    @derive
-    @*/
 
     /// core: `Ordering::reverse` swaps Less and Greater (vstd has no specification for it)
     pub assume_specification [core::cmp::Ordering::reverse] (o: core::cmp::Ordering) -> (r: core::cmp::Ordering)
@@ -148,6 +145,15 @@ pub mod env {
         requires stake.v() >= 0
         ensures r is Ok
     { unimplemented!() }
+
+    /// generated by `declare_native_blueprint_state!`: `pub const fn field_index(&self) -> u8 { *self as u8 }`
+    impl ValidatorField {
+        #[verifier::external_body]
+        pub fn field_index(&self) -> (r: FieldIndex) ensures r == vfidx(*self) { unimplemented!() }
+    }
+    /*@item radix-engine/src/blueprints/consensus_manager/events/validator.rs :: struct StakeEvent
+    @derive
+    @*/
     pub const VALIDATOR_APPLY_EMISSION_IDENT: &'static str = /*@expr-after radix-engine-interface/src/blueprints/consensus_manager/invocations.rs :: const VALIDATOR_APPLY_EMISSION_IDENT :: <<&str =>> @*/;
     pub const VALIDATOR_APPLY_REWARD_IDENT: &'static str = /*@expr-after radix-engine-interface/src/blueprints/consensus_manager/invocations.rs :: const VALIDATOR_APPLY_REWARD_IDENT :: <<&str =>> @*/;
     /*@item radix-engine-interface/src/blueprints/consensus_manager/invocations.rs :: struct ValidatorApplyEmissionInput
@@ -360,7 +366,7 @@ pub mod unit {
         &&& sum_stake(g, n) > 0
         // (a) XRD is minted once, exactly the sum of the per-validator emissions, never more than configured
         &&& s2.world.supply[XRD] == Some(Decimal::of(s0.world.supply[XRD]->Some_0.v() + minted))
-        &&& 0 <= minted && (total_emission >= 0 ==> minted <= total_emission)
+        &&& 0 <= minted && (total_emission >= 0 ==> minted <= total_emission) && (total_emission < 0 ==> minted == 0)
         // every minted XRD went to a validator: no bucket is left behind
         &&& s2.world.buckets =~= s0.world.buckets
         // (b) rewards come out of the vault only: it shrinks by exactly what was paid, and is never overdrawn
@@ -494,6 +500,28 @@ pub mod unit {
         let m = sum_em(g, rate, n); let se = sum_eff(g, n);
         assert(rate * se <= rate * t) by (nonlinear_arith) requires rate >= 0, se <= t;
         assert(m <= total) by (nonlinear_arith) requires m * e18() <= rate * se, rate * se <= rate * t, rate * t <= total * e18();
+    }
+    /// a negative configured emission can never mint anything (the shares are all <= 0, and minting refuses negatives)
+    pub proof fn lemma_sum_em_nonpos(g: Seq<GInfo>, rate: int, n: int)
+        requires g_wf(g), 0 <= n <= g.len(), rate <= 0
+        ensures sum_em(g, rate, n) <= 0
+        decreases n
+    {
+        if n > 0 {
+            lemma_sum_em_nonpos(g, rate, n - 1);
+            let x = g[n - 1];
+            assert(x.eff * rate <= 0) by (nonlinear_arith) requires x.eff >= 0, rate <= 0;
+            let p = x.eff * rate;
+            if p < 0 { assert((-p) / e18() >= 0) by (nonlinear_arith) requires -p > 0; }
+        }
+    }
+    pub proof fn lemma_negative_rate(total: int, t: int)
+        requires total < 0, t > 0
+        ensures fdiv(total, t) <= 0
+    {
+        let p = total * e18();
+        assert(p < 0) by (nonlinear_arith) requires total < 0, p == total * e18();
+        assert((-p) / t >= 0) by (nonlinear_arith) requires -p > 0, t > 0;
     }
     /// (a) one validator never gets more than its pro-rata share  total * stake / total_stake
     pub proof fn lemma_emission_pro_rata(g: Seq<GInfo>, total: int, j: int)
@@ -731,7 +759,7 @@ pub mod unit {
                 assert(sc.actor_vaults.contains(rv));
                 assert(sc.world.buckets.contains_key(eb));
             }
-        @after <<VALIDATOR_APPLY_EMISSION_IDENT>> #1
+        @after <<api.call_method(>> #1
             proof {
                 assert(api.st().world.vaults[rv] == sc.world.vaults[rv]);
                 let e = emission_of(g[j3], rate);
@@ -742,7 +770,7 @@ pub mod unit {
                 assert(api.st().world.buckets =~= s0.world.buckets.insert(tb, Holding { resource: XRD, amount: Decimal::of(rest - e) }));
                 assert(api.st().calls.subrange(0, c0) =~= sa.calls.subrange(0, c0));
             }
-        @after <<total_emission_xrd_bucket.drop_empty(api)>> #1
+        @before <<let mut total_effective_stake>> #1
             let ghost s3 = api.st();
             proof {
                 assert(s3.world.buckets =~= s0.world.buckets);
@@ -777,7 +805,7 @@ pub mod unit {
                 assert(s3.calls.subrange(c0 + gl, s3.calls.len() as int) =~= Seq::<CallRec>::empty());
             }
         @subst <<continue; }>> => <<} else { proof { assert(0 <= total_rewards.v() <= api.st().world.vaults[rv].amount.v()); }>> why: (the woven assert is the obligation (b): the reward vault is never overdrawn -- what is due never exceeds what the vault still holds) Verus rejects `continue` inside a for-loop ("for-loops do not yet support continue"); `if c { continue; } REST` at the top level of the loop body is rewritten to `if c { } else { REST }` (this subst opens the else-block, the next one closes it at the end of the loop body); control flow is unchanged
-        @subst <<} validator_rewards.proposer_rewards.clear();>> => <<} } validator_rewards.proposer_rewards.clear();>> why: closing brace of the else-block opened by the previous subst (end of the body of the reward loop)
+        @subst <<ValidatorApplyRewardInput { xrd_bucket, epoch }).unwrap(), )?; }>> => <<ValidatorApplyRewardInput { xrd_bucket, epoch }).unwrap(), )?; proof { let t = total_rewards.v(); let paid = sum_pr(g, pr0, j5) + sum_em(g, rrate, j5); assert(api.st().world.buckets =~= s0.world.buckets); assert(api.st().world.vaults[rv] == Holding { resource: res, amount: Decimal::of(vault - paid - t) }); assert(api.st().calls.subrange(0, c0) =~= sb.calls.subrange(0, c0)); let l0 = sb.calls.subrange(c0 + gl, sb.calls.len() as int); let l1 = api.st().calls.subrange(c0 + gl, api.st().calls.len() as int); assert(l1.drop_last() =~= l0); assert(rw_call_ok(l1.last(), g[j5], t, epoch, res)); } } }>> why: closing brace of the else-block opened by the previous subst (end of the body of the reward loop); the woven proof block (ghost code only) sits between the call and the two closing braces
         @loop 5 iter it5
             invariant
                 g_wf(g), gl == g.len(), rep(e5, g), it5.seq() == e5, rrate == reward_per_effective_stake.v(), rrate >= 0,
@@ -815,23 +843,12 @@ pub mod unit {
                 lemma_mono(g, pr0, rrate, 0, j5 + 1);
                 lemma_fmul_floor(g[j5].eff, rrate);
             }
-        @after <<VALIDATOR_APPLY_REWARD_IDENT>> #1
-            proof {
-                let t = total_rewards.v();
-                let paid = sum_pr(g, pr0, j5) + sum_em(g, rrate, j5);
-                assert(api.st().world.buckets =~= s0.world.buckets);
-                assert(api.st().world.vaults[rv] == Holding { resource: res, amount: Decimal::of(vault - paid - t) });
-                assert(api.st().calls.subrange(0, c0) =~= sb.calls.subrange(0, c0));
-                let l0 = sb.calls.subrange(c0 + gl, sb.calls.len() as int);
-                let l1 = api.st().calls.subrange(c0 + gl, api.st().calls.len() as int);
-                assert(l1.drop_last() =~= l0);
-                assert(rw_call_ok(l1.last(), g[j5], t, epoch, res));
-            }
         @before <<Ok(())>> #2
             proof {
                 let s2 = api.st();
                 let paid = sum_pr(g, pr0, gl) + sum_em(g, rrate, gl);
                 if total >= 0 { lemma_emissions_bounded(g, total); }
+                else { lemma_sums_bounds(g, gl); lemma_negative_rate(total, sum_stake(g, gl)); lemma_sum_em_nonpos(g, rate, gl); }
                 assert(sum_stake(g, gl) > 0);
                 assert(rate == emission_rate(total, g));
                 assert(minted == sum_em(g, rate, gl));
@@ -994,6 +1011,65 @@ pub mod unit {
         assert((t + e) * s >= t * (s + m)) by (nonlinear_arith) requires m * t <= e * s;
     }
 
+    /// what a successful stake(bucket) did: "Staking mints stake units in proportion to the validator's stake"
+    pub open spec fn staked(s: ApiState, s2: ApiState, bucket: Own, out: Own) -> bool {
+        let v = s.vstate; let w = s.world; let w2 = s2.world;
+        let sv = v.stake_xrd_vault_id; let su = v.stake_unit_resource;
+        let x = w.buckets[bucket].amount.v(); let t = w.vaults[sv].amount.v(); let sus = w.supply[su]->Some_0.v();
+        let m = stake_units(x, t, sus);
+        &&& w.buckets.contains_key(bucket) && w.vaults.contains_key(sv) && w.buckets[bucket].resource == w.vaults[sv].resource
+        &&& out != bucket && !w.buckets.contains_key(out)
+        // the pool takes exactly the XRD handed in; exactly m stake units are minted into the returned bucket
+        &&& w2.vaults =~= w.vaults.insert(sv, Holding { resource: w.vaults[sv].resource, amount: Decimal::of(t + x) })
+        &&& w2.supply =~= w.supply.insert(su, Some(Decimal::of(sus + m)))
+        &&& w2.buckets =~= w.buckets.remove(bucket).insert(out, Holding { resource: su, amount: Decimal::of(m) })
+        &&& in_dec(t + x) && in_dec(sus + m) && in_dec(m)
+        // never more units than the exact proportion x * S / T
+        &&& m >= 0 && m * t <= x * sus
+        &&& s2.vstate == (ValidatorSubstate { sorted_key: s2.vstate.sorted_key, ..v })
+        &&& s2.calls == s.calls && s2.actor_vaults == s.actor_vaults
+    }
+    /// C42 on the ledger: right after a successful stake of x XRD, the minted units are worth (by the validator's own
+    /// redemption formula over the new pool / supply) no more than x: staking and immediately unstaking never gains XRD
+    pub proof fn lemma_stake_then_redeem_on_ledger(s: ApiState, s2: ApiState, bucket: Own, out: Own)
+        requires validator_env_ok(s), staked(s, s2, bucket, out)
+        ensures ({
+            let v = s.vstate;
+            let x = s.world.buckets[bucket].amount.v();
+            let u = s2.world.buckets[out].amount.v();
+            let t2 = s2.world.vaults[v.stake_xrd_vault_id].amount.v();
+            let sus2 = s2.world.supply[v.stake_unit_resource]->Some_0.v();
+            0 <= redemption(u, t2, sus2) <= x
+        })
+    {
+        let v = s.vstate; let w = s.world;
+        let x = w.buckets[bucket].amount.v(); let t = w.vaults[v.stake_xrd_vault_id].amount.v(); let sus = w.supply[v.stake_unit_resource]->Some_0.v();
+        let m = stake_units(x, t, sus);
+        assert(x >= 0 && t >= 0 && sus >= 0);
+        lemma_stake_then_unstake(x, t, sus);
+    }
+    /// staking x XRD into a validator holding T XRD against S units and immediately redeeming the minted units (the vault
+    /// then holds T + x against S + units) never returns more than x
+    pub proof fn lemma_stake_then_unstake(x: int, t: int, s: int)
+        requires x >= 0, t >= 0, s >= 0
+        ensures ({
+            let u = stake_units(x, t, s);
+            0 <= redemption(u, t + x, s + u) <= x
+        })
+    {
+        let u = stake_units(x, t, s);
+        lemma_stake_units_pro_rata(x, t, s);
+        let t2 = t + x; let s2 = s + u;
+        lemma_redemption_pro_rata(u, t2, s2);
+        let r = redemption(u, t2, s2);
+        if s2 > 0 {
+            assert(u * t <= x * s) by {
+                if t == 0 { assert(u * t == 0) by (nonlinear_arith) requires t == 0; assert(x * s >= 0) by (nonlinear_arith) requires x >= 0, s >= 0; }
+            }
+            assert(u * t2 <= x * s2) by (nonlinear_arith) requires u * t <= x * s, t2 == t + x, s2 == s + u;
+            assert(r <= x) by (nonlinear_arith) requires r * s2 <= u * t2, u * t2 <= x * s2, s2 > 0;
+        }
+    }
     /// caller side meets callee side: what shims/ledger_sdk_c42.rs ASSUMES of `call_method(.., apply_emission | apply_reward, ..)`
     /// (bucket consumed, XRD supply untouched, only the callee's own two vaults change) follows from what is PROVED below
     /// for ValidatorBlueprint::{apply_emission, apply_reward}
@@ -1015,6 +1091,44 @@ pub mod unit {
                     ret matches Ok(u) ==> u.v() == stake_units(xrd_amount.v(), total_stake_xrd_amount.v(), total_stake_unit_supply.v()),
                     ret matches Err(e) ==> e == computation_error(),
         @closure 1 := |amount: Decimal| -> (r: Option<Decimal>) ensures r == (if fits_dec(dec_mul(xrd_amount.v(), amount.v())) { Some(Decimal::of(dec_mul(xrd_amount.v(), amount.v()))) } else { None })
+        @*/
+
+        /*@fn radix-engine/src/blueprints/consensus_manager/validator.rs :: impl ValidatorBlueprint :: fn stake_internal
+        @sig
+            requires validator_env_ok(old(api).st()),
+            ensures
+                ret matches Ok(out) ==> staked(old(api).st(), final(api).st(), xrd_bucket.0, out.0.0)
+                    && (is_owner || old(api).st().vstate.accepts_delegated_stake),
+        @entry
+            let ghost s0 = api.st();
+            let ghost v0 = s0.vstate; let ghost w0 = s0.world;
+            let ghost sv = v0.stake_xrd_vault_id; let ghost su = v0.stake_unit_resource;
+            let ghost xb = xrd_bucket.0;
+        @before <<let new_index_key>> #1
+            proof {
+                let x = xrd_bucket_amount.v(); let t = w0.vaults[sv].amount.v(); let sus = w0.supply[su]->Some_0.v();
+                assert(w0.buckets.contains_key(xb) && x == w0.buckets[xb].amount.v() && x >= 0 && t >= 0 && sus >= 0);
+                lemma_stake_units_pro_rata(x, t, sus);
+                if t == 0 { assert(stake_units(x, t, sus) * t == 0) by (nonlinear_arith) requires t == 0; assert(x * sus >= 0) by (nonlinear_arith) requires x >= 0, sus >= 0; }
+                let m = stake_units(x, t, sus); let out = stake_unit_bucket.0.0;
+                assert(Decimal::of(m).v() == m);
+                assert(api.st().world.vaults =~= w0.vaults.insert(sv, Holding { resource: w0.vaults[sv].resource, amount: Decimal::of(t + x) }));
+                assert(api.st().world.supply =~= w0.supply.insert(su, Some(Decimal::of(sus + m))));
+                assert(api.st().world.buckets =~= w0.buckets.remove(xb).insert(out, Holding { resource: su, amount: Decimal::of(m) }));
+                assert(new_stake_amount == api.st().world.vaults[sv].amount);
+            }
+        @*/
+
+        /*@fn radix-engine/src/blueprints/consensus_manager/validator.rs :: impl ValidatorBlueprint :: fn stake
+        @sig
+            requires validator_env_ok(old(api).st()),
+            ensures ret matches Ok(out) ==> staked(old(api).st(), final(api).st(), xrd_bucket.0, out.0) && old(api).st().vstate.accepts_delegated_stake,
+        @*/
+
+        /*@fn radix-engine/src/blueprints/consensus_manager/validator.rs :: impl ValidatorBlueprint :: fn stake_as_owner
+        @sig
+            requires validator_env_ok(old(api).st()),
+            ensures ret matches Ok(out) ==> staked(old(api).st(), final(api).st(), xrd_bucket.0, out.0),
         @*/
 
         /*@fn radix-engine/src/blueprints/consensus_manager/validator.rs :: impl ValidatorBlueprint :: fn apply_emission
@@ -1191,6 +1305,9 @@ pub mod unit {
     // ActiveValidatorSet helpers
     // ------------------------------------------------------------------------------------------
     pub open spec fn stake_total(vs: VSet, n: int) -> int decreases n { if n <= 0 { 0 } else { stake_total(vs, n - 1) + vs[n - 1].1.stake.v() } }
+    /*@item radix-engine/src/blueprints/consensus_manager/consensus_manager.rs :: struct ActiveValidatorSet
+    @derive
+    @*/
     impl ActiveValidatorSet {
         /*@fn radix-engine/src/blueprints/consensus_manager/consensus_manager.rs :: impl ActiveValidatorSet :: fn get_by_index
         @sig
@@ -1222,7 +1339,7 @@ pub mod unit {
                 forall|i: int| 0 <= i < vs.len() ==> #[trigger] it.seq()[i] == vs[i].1.stake,
                 sum.v() == stake_total(vs, it.index@ as int),
                 forall|n: int| 0 <= n <= it.index@ ==> in_dec(#[trigger] stake_total(vs, n)),
-        @before <<sum = sum.checked_add(v)>> #1
+        @before <<sum = sum>> #1
             proof { assert(v == vs[it.index@ as int].1.stake); assert(stake_total(vs, it.index@ + 1) == stake_total(vs, it.index@ as int) + v.v()); }
         @*/
     }
